@@ -314,6 +314,57 @@ var corpus = []scripted{
 			h.ping()
 		})
 	}},
+	{"UNSUBACK carrying the identifier of a pending SUBSCRIBE, SUBACK carrying that of a pending UNSUBSCRIBE", baseOpts(), func(h *hist) {
+		h.quiet(func() {
+			h.sc.budgetIn = 0
+			h.connectQuiet()
+			h.sc.opts.lossRate = 1000 // the genuine responses are withheld
+			h.subscribe(1, []string{"a/b"})
+			h.sc.inject = [][]byte{ack4(0xb0, 0x6000), brokerPublish(0, false, 0, "in/after1", []byte("v1"))}
+			h.doRead()
+			h.doRead()
+			h.sc.opts.lossRate = 0
+			h.connectQuiet()
+			h.sc.opts.lossRate = 1000
+			h.unsubscribe([]string{"a/b"})
+			h.sc.inject = [][]byte{{0x90, 3, 0x40, 0x01, 0}, brokerPublish(0, false, 0, "in/after2", []byte("v2"))}
+			h.doRead()
+			h.doRead()
+			h.sc.opts.lossRate = 0
+			h.goodSuffix()
+		})
+	}},
+	{"duplicate of a big exactly-once message after a reconnect, then the next exactly-once message", func() seqOpts { o := baseOpts(); o.bufSize = 64; return o }(), func(h *hist) {
+		h.quiet(func() {
+			h.sc.budgetIn = 0
+			big := make([]byte, 150)
+			for i := range big {
+				big[i] = byte(i)
+			}
+			h.sc.opts.lossRate = 1000 // the scripted broker sends nothing of its own: every packet below is explicit
+			h.sc.inject = [][]byte{brokerPublish(2, false, 7, "in/big", big)}
+			h.doRead() // connects, hands out the BigMessage
+			if h.bigMsg != nil {
+				h.readAll()
+			}
+			h.doRead() // marker, PUBREC 7; then the connection ends
+			h.sc.inject = [][]byte{brokerPublish(2, true, 7, "in/big", big), ack4(0x62, 7), brokerPublish(2, false, 8, "in/next", []byte("m")), brokerPublish(0, false, 0, "in/last", []byte("z"))}
+			h.drain(6)
+			h.goodSuffix()
+		})
+	}},
+	{"F25: the broker lost its session between PUBREC and PUBREL; its next message reuses the identifier", baseOpts(), func(h *hist) {
+		h.quiet(func() {
+			h.sc.budgetIn = 0
+			h.sc.opts.lossRate = 1000 // every broker packet below is explicit
+			h.sc.inject = [][]byte{brokerPublish(2, false, 1, "in/old", []byte("o"))}
+			h.doRead() // connects, returns the message
+			h.doRead() // marker saved, PUBREC written; the connection ends before the PUBREL
+			h.sc.sessionPresent = false // the broker comes back without its session
+			h.sc.inject = [][]byte{brokerPublish(2, false, 1, "in/new", []byte("n")), brokerPublish(0, false, 0, "in/last", []byte("z"))}
+			h.drain(4)
+		})
+	}},
 	{"big message pending at Close", func() seqOpts { o := baseOpts(); o.bufSize = 32; return o }(), func(h *hist) {
 		h.quiet(func() {
 			h.sc.budgetIn = 0
@@ -443,9 +494,11 @@ func corruptCorpus() []scripted {
 			h.quiet(func() {
 				h.sc.budgetIn = 0
 				h.sc.dropComp = true
+				h.sc.opts.lossRate = 1000 // no PUBREL for the inbound message: its marker stays
 				h.sc.inject = [][]byte{brokerPublish(2, false, 9, "in/x", []byte("m1")), brokerPublish(0, false, 0, "in/y", []byte("m2"))}
 				h.doRead()
 				h.doRead() // marker saved, PUBREC written
+				h.sc.opts.lossRate = 0
 				h.pubP(2, false, []byte("D"), "t")
 				h.sc.inject = [][]byte{brokerPublish(0, false, 0, "in/z", []byte("m3"))}
 				h.doRead() // PUBREC for D: PUBREL recorded
